@@ -2,6 +2,13 @@ package main
 
 // Profiles of the scan properties.
 
+import (
+	"fmt"
+	"math/rand"
+
+	"verifh/cases"
+)
+
 func quick(c *Ctx) bool { return c.Tier != "thorough" }
 
 func init() {
@@ -100,7 +107,29 @@ func init() {
 			p.Export = []scanCfg{cm, tg4}
 			p.MaxAPI, p.MaxCLIFromTLC, p.NRandom, p.MaxTraces = 100000, 400, 600, 300
 		}
-		c03Dates = true
+		// every DAG with several assignments of distinct timestamps (children older than parents included)
+		p.Expand = func(rng *rand.Rand, sc cases.ScanCase) []cases.ScanCase {
+			n := len(sc.G.Commits)
+			var out []cases.ScanCase
+			perms := 4
+			if !quick(c) {
+				perms = 12
+			}
+			for k := 0; k < perms; k++ {
+				v := sc
+				v.Dates = make([]int64, n)
+				for i, pi := range rng.Perm(n) {
+					v.Dates[i] = int64(1000000000 + 1000*pi)
+				}
+				if k == 0 { // all equal
+					for i := range v.Dates {
+						v.Dates[i] = 1000000000
+					}
+				}
+				out = append(out, v)
+			}
+			return out
+		}
 		runScanProfile(c, p)
 	}
 
@@ -151,9 +180,55 @@ func init() {
 			p.Export = []scanCfg{t3, tg4, cm4}
 			p.MaxCLIFromTLC, p.MaxTraces = 200, 200
 		}
-		c09Layouts = true
+		// the same graph with permuted dates and every storage layout must give identical numbers
+		p.RelationalCLI = true
+		p.Expand = func(rng *rand.Rand, sc cases.ScanCase) []cases.ScanCase {
+			n := len(sc.G.Commits)
+			var out []cases.ScanCase
+			for _, layout := range []string{"loose", "packed", "packrefs", "both"} {
+				v := sc
+				v.Layout = layout
+				v.Dates = make([]int64, n)
+				for i, pi := range rng.Perm(n) {
+					v.Dates[i] = int64(1000000000 + 1000*pi)
+				}
+				v.Bare = layout == "packed"
+				v.OmitEmptyTree = layout == "both"
+				out = append(out, v)
+			}
+			// the same roots supplied as ROOT arguments, in both orders (references then stay unwalked)
+			for _, rev := range []bool{false, true} {
+				v := sc
+				v.Roots = nil
+				var walked []cases.RootSpec
+				for _, r := range sc.Roots {
+					if r.IsRef {
+						if r.Walk {
+							walked = append(walked, r)
+						}
+						r.Walk = false
+					}
+					v.Roots = append(v.Roots, r)
+				}
+				if len(walked) < 2 || len(sc.Args) > 0 {
+					continue
+				}
+				if rev {
+					for i, j := 0, len(walked)-1; i < j; i, j = i+1, j-1 {
+						walked[i], walked[j] = walked[j], walked[i]
+					}
+				}
+				v.Args = nil
+				for _, r := range walked {
+					name := fmt.Sprintf("{hex:%s%d}", r.O.K, r.O.I)
+					v.Roots = append(v.Roots, cases.RootSpec{O: r.O, Walk: true, IsRef: false, Name: name, Kind: "plain"})
+					v.Args = append(v.Args, name)
+				}
+				out = append(out, v)
+			}
+			return out
+		}
 		runScanProfile(c, p)
 	}
 }
 
-var c03Dates, c09Layouts bool
